@@ -8,7 +8,7 @@ COMMON := -std=c++17 -g -fno-omit-frame-pointer -I$(REPO)/include -DYAKUSHIMA_VE
 OPT ?= -O1
 LIBS := -lglog -ltbb -lpthread
 
-E1 := h_tree h_proto_s1 h_proto_s2 h_proto_s3
+E1 := h_tree h_proto_s1 h_proto_s2 h_proto_s3 h_life
 E2 := s_map s_storage
 E3 := e_scan e_nvset e_misc
 BINS := $(addprefix $(B)/,$(E1))
